@@ -8,7 +8,7 @@ One output line per input line; see harness/cells_common.py for the producer and
   scenario vor <cap|-> <n> p:x,y ... t:a,b,c ...
   new cell|fixed|g2d | set a c|- | moveto a c | moverel a key | move a Dir k | remove a
   tryrandom 0|1 | randempty d... | randcell d...      -> result | observation dump
-  conns c | nbhd c r ic | nbprop c | mask c r ic       -> result
+  conns c | nbhd c r ic | nbprop c | mask c r ic | nbagents c r ic      -> result
 -/
 open Mesa.Cells
 
@@ -180,6 +180,17 @@ def stepLine (d : DSt) (ws : List String) : DSt × String :=
             ({ d with caches := cs }, "ok " ++ fmtCoords (sortCoords v))
         else (d, "err Key")
       | _, _, _, _ => (d, "bad-op")
+    | ["nbagents", c, r, ic] =>
+      match parseCoord c, r.toInt?, parseBool ic with
+      | some c, some r, some ic =>
+        if c ∈ sp.cells then
+          if r < 1 then (d, "err Value")
+          else
+            let (v, cs) := getNbhd (nbOf sp) r.toNat ic c d.caches
+            ({ d with caches := cs },
+             "ok " ++ " ".intercalate ((sortBy (fun (a b : Nat) => decide (a < b)) (nbhdAgents d.st v)).map toString))
+        else (d, "err Key")
+      | _, _, _ => (d, "bad-op")
     | ["nbprop", c] =>
       match parseCoord c with
       | none => (d, "bad-op")
